@@ -163,10 +163,80 @@ def spec_enum(ty, items, out):
     return "enum values differ: expected %s got %s" % (exp, out)
 
 
+def generated_defaults_stage(ctx):
+    """`the generated reader returns exactly the declared default for an absent field and the generated enum constants equal the declared
+    values`, on the generated C itself: a table with boundary defaults of every scalar type, float / double defaults that need all 9 / 17
+    significant digits, and enum members; the program reads an EMPTY table through the generated accessors and prints bit patterns."""
+    import struct
+    r = random.Random(ctx.seed * 131 + 8)
+    flatcc, _ = build_flatcc(ctx, tag="ccplain")
+    rt = build_runtime_objs(ctx)
+    ints = {"byte": (-128, 127), "ubyte": (0, 255), "short": (-32768, 32767), "ushort": (0, 65535), "int": (-2**31, 2**31 - 1), "uint": (0, 2**32 - 1),
+            "long": (-2**63, 2**63 - 1), "ulong": (0, 2**64 - 1)}
+    fields = []
+    for t, (lo, hi) in ints.items():
+        for v in (lo, hi, r.randint(lo, hi)): fields.append((t, str(v), v))
+    fields += [("bool", "true", 1), ("bool", "false", 0)]
+    fl = ["3.1415927", "16777215", "0.1", "1e-7", "3.4028235e38", "1.17549435e-38", "8388609.5", "0.30000001"] + ["%.9g" % struct.unpack("<f", struct.pack("<I", r.getrandbits(32) & 0x7f7fffff))[0] for _ in range(12)]
+    db = ["0.30000000000000004", "1e23", "1.7976931348623157e308", "2.2250738585072014e-308", "123456789012345680", "0.1", "9007199254740992", "5e-324"] + \
+         [repr(struct.unpack("<d", struct.pack("<Q", r.getrandbits(64) & 0x7fefffffffffffff))[0]) for _ in range(12)]
+    for s in fl:
+        if "nan" in s or "inf" in s: continue
+        fields.append(("float", s, struct.unpack("<I", struct.pack("<f", float(s)))[0]))
+    for s in db:
+        if "nan" in s or "inf" in s: continue
+        fields.append(("double", s, struct.unpack("<Q", struct.pack("<d", float(s)))[0]))
+    enums = [("EA", "byte", [("A0", -128), ("A1", -1), ("A2", 127)]), ("EB", "ulong", [("B0", 0), ("B1", 2**63), ("B2", 2**64 - 1)]), ("EC", "ushort", [("C0", 65535)])]
+    fbs = ["namespace GD;"] + ["enum %s:%s { %s }" % (n, t, ", ".join("%s = %d" % m for m in ms)) for n, t, ms in enums]
+    fbs.append("table T {\n" + "\n".join("  f%d:%s = %s;" % (i, t, s) for i, (t, s, _) in enumerate(fields)) +
+               "\n" + "\n".join("  e%d:%s = %s;" % (i, n, ms[-1][0]) for i, (n, t, ms) in enumerate(enums)) + "\n}\nroot_type T;")
+    d = os.path.join(ctx.work, "gdef"); os.makedirs(d, exist_ok=True)
+    open(os.path.join(d, "gd.fbs"), "w").write("\n".join(fbs) + "\n")
+    rc, log = flatcc_generate(ctx, flatcc, os.path.join(d, "gd.fbs"), d, opts=("-a",))
+    if rc != 0:
+        return {}, [("flatcc rejects the defaults schema: " + log[-600:], "\n".join(fbs))]
+    prog = ['#include <stdio.h>', '#include <string.h>', '#include "gd_builder.h"', 'int main(void) {', ' flatcc_builder_t b, *B = &b; void *buf; size_t n; GD_T_table_t t;',
+            ' flatcc_builder_init(B); GD_T_start_as_root(B); GD_T_end_as_root(B); buf = flatcc_builder_finalize_aligned_buffer(B, &n); t = GD_T_as_root(buf);']
+    for i, (ty, s, _) in enumerate(fields):
+        if ty == "float": prog.append(' { float v = GD_T_f%d(t); unsigned u; memcpy(&u, &v, 4); printf("f%d=%%u p%%d\\n", u, (int)GD_T_f%d_is_present(t)); }' % (i, i, i))
+        elif ty == "double": prog.append(' { double v = GD_T_f%d(t); unsigned long long u; memcpy(&u, &v, 8); printf("f%d=%%llu p%%d\\n", u, (int)GD_T_f%d_is_present(t)); }' % (i, i, i))
+        elif ty in ("ulong",): prog.append(' printf("f%d=%%llu p%%d\\n", (unsigned long long)GD_T_f%d(t), (int)GD_T_f%d_is_present(t));' % (i, i, i))
+        else: prog.append(' printf("f%d=%%lld p%%d\\n", (long long)GD_T_f%d(t), (int)GD_T_f%d_is_present(t));' % (i, i, i))
+    for i, (n, t, ms) in enumerate(enums):
+        cast = "unsigned long long" if t.startswith("u") else "long long"; fm = "%llu" if t.startswith("u") else "%lld"
+        prog.append(' printf("e%d=%s\\n", (%s)GD_T_e%d(t));' % (i, fm, cast, i))
+        for (mn, mv) in ms: prog.append(' printf("c_%s_%s=%s\\n", (%s)GD_%s_%s);' % (n, mn, fm, cast, n, mn))
+    prog += [' flatcc_builder_aligned_free(buf); flatcc_builder_clear(B); return 0; }']
+    open(os.path.join(d, "prog.c"), "w").write("\n".join(prog) + "\n")
+    try:
+        exe = build_harness(ctx, "gdef_prog", [os.path.join(d, "prog.c")], rt, incs=[d])
+    except BuildError as e:
+        return {}, [("generated code for the defaults schema does not compile: " + str(e)[-800:], "\n".join(fbs))]
+    rc, out, err = sh([exe], timeout=60, env=ASAN_ENV)
+    got = dict(l.split("=", 1) for l in out.split("\n") if "=" in l)
+    fails = []
+    if rc != 0: fails.append(("defaults program crashed: " + err[-500:], "\n".join(fbs)))
+    for i, (ty, s, want) in enumerate(fields):
+        g = got.get("f%d" % i, "?")
+        if g != "%d p0" % want:
+            fails.append(("table T { x:%s = %s; }: the generated reader returns %s for the absent field (value%s, then is_present), declared default is %d" %
+                          (ty, s, g, " as IEEE bits" if ty in ("float", "double") else "", want), "\n".join(fbs)))
+    for i, (n, t, ms) in enumerate(enums):
+        if got.get("e%d" % i) != str(ms[-1][1]): fails.append(("enum field default %s.%s reads as %s, declared %d" % (n, ms[-1][0], got.get("e%d" % i), ms[-1][1]), "\n".join(fbs)))
+        for (mn, mv) in ms:
+            if got.get("c_%s_%s" % (n, mn)) != str(mv): fails.append(("generated constant %s_%s is %s, declared %d" % (n, mn, got.get("c_%s_%s" % (n, mn)), mv), "\n".join(fbs)))
+    return {"generated_defaults_checked": len(fields) + sum(len(e[2]) + 1 for e in enums)}, fails
+
+
 def run(ctx):
     ths = proof_stage(ctx)
     if ths is None:
         finish(ctx, [])
+    gd_stats, gd_fail = generated_defaults_stage(ctx)
+    ctx.cov.update(gd_stats)
+    if gd_fail:
+        violation(ctx, "gendefaults_%d.json" % ctx.seed, {"kind": "property-fails-on-implementation", "why": gd_fail[0][0][:2000], "count": len(gd_fail),
+                                                            "schema_fbs": gd_fail[0][1], "more": [f[0][:200] for f in gd_fail[1:6]]})
     _, cobjs = build_flatcc(ctx, flags=SAN, with_cli=False)
     vobj = [o for o in build_runtime_objs(ctx) if o.endswith("verifier.o")]
     h = build_harness(ctx, "h_schema", [os.path.join(VERIF, "harness/h_schema.c")], cobjs + vobj)
